@@ -140,7 +140,7 @@ PENDING = {
     'C15': dict(props_file='Props/C15.v', theorems=[], kernels=['drewards'], scenarios=['basic.ops', 'findings.ops', 'branches.ops', 'overflow.ops', 'funds.ops', 'queries.ops'],
                 profiles=['rewards', 'token'], keys=['rw.', 'bank reward', 'm wasm bsei reward', 'm wasm disp reward', 'tok.bsei'],
                 ops=[r'^reward ', r'^cw bsei', r'^hub \S+ updateglobal', r'^bond b'], assumes=E_ENV),
-    'C16': dict(props_file='Props/C16.v', theorems=[], kernels=[], scenarios=['basic.ops', 'findings.ops', 'branches.ops', 'overflow.ops', 'token.ops', 'queries.ops'],
+    'C16': dict(props_file='Props/C16.v', theorems=[], kernels=[], grid=True, scenarios=['basic.ops', 'findings.ops', 'branches.ops', 'overflow.ops', 'token.ops', 'queries.ops'],
                 profiles=['token', 'general'], keys=['rw.holder', 'rw.state', 'rw.qholders', 'rw.qstate', 'tok.bsei', 'm wasm bsei', 'm wasm hub bsei'],
                 ops=[r'^cw bsei', r'^bond b', r'^reward \S+ (inc|dec)'], assumes=E_ENV + ['bSei instantiated without initial balances']),
     'C19': dict(props_file='Props/C19.v', theorems=[], kernels=['swapinfo'], scenarios=['basic.ops', 'findings.ops', 'branches.ops', 'overflow.ops', 'funds.ops'],
